@@ -113,7 +113,7 @@ def decide_length(A: E2Artefact, N, wd, timeout, R: Result, prop, stats, samples
             R.inconclusive.append('E2 counterexample does not reproduce natively (model suspect): ' + detail)
             continue
         # attribution
-        mine = (prop == 'C09') or (prop == 'C01' and (tag in ('C01', 'E2') or nat[0] in ('panic', 'hang'))) or \
+        mine = (prop == 'C09') or (prop == 'C07' and nat[0] in ('panic', 'hang')) or (prop == 'C01' and (tag in ('C01', 'E2') or nat[0] in ('panic', 'hang'))) or \
                (prop == 'C03' and (tag == 'C03' or (nat[0] in ('panic', 'hang') and (refc is None or refc[0] != 'ok'))))
         if mine:
             R.violation('e2:%s:%s' % (A.name, ','.join(map(str, kinds))), detail,
